@@ -664,6 +664,7 @@ static void skipSingleQuoteProgramData(lex_state_t * state) {
  * @return 
  */
 int scpiLex_StringProgramData(lex_state_t * state, scpi_token_t * token) {
+    int incomplete = 0;
     token->ptr = state->pos;
 
     if (!iseos(state)) {
@@ -674,6 +675,8 @@ int scpiLex_StringProgramData(lex_state_t * state, scpi_token_t * token) {
             if (!iseos(state) && ischr(state, '"')) {
                 state->pos++;
                 token->len = state->pos - token->ptr;
+            } else if (iseos(state)) {
+                incomplete = 1;
             } else {
                 state->pos = token->ptr;
             }
@@ -684,10 +687,21 @@ int scpiLex_StringProgramData(lex_state_t * state, scpi_token_t * token) {
             if (!iseos(state) && ischr(state, '\'')) {
                 state->pos++;
                 token->len = state->pos - token->ptr;
+            } else if (iseos(state)) {
+                incomplete = 1;
             } else {
                 state->pos = token->ptr;
             }
         }
+    }
+
+    if (incomplete) {
+        /* closing quote not received yet - the rest of the input belongs to the
+         * string (it may contain message terminators), same as incomplete block */
+        token->type = SCPI_TOKEN_UNKNOWN;
+        token->len = 0;
+        state->pos = state->buffer + state->len;
+        return 0;
     }
 
     token->len = state->pos - token->ptr;
